@@ -92,7 +92,8 @@ func retryScenario(maxCalls int) func() {
 // second invocation starts again at 2^1.
 func retryTwice() {
 	calls := 0
-	script := [][]int{{vrt.Choose(3, 0), 0}, {1 + vrt.Choose(2, 0), 0}} // number of plain errors before success, per invocation
+	script := [][]int{{vrt.Choose(3, 0), 0}, {1 + vrt.Choose(2, 0), 0}} // number of plain errors before the end, per invocation
+	fatalEnd := vrt.Choose(2, 0) == 1                                   // the first invocation ends with a fatal error instead of a success
 	inv := 0
 	fn := ExponentialRetry(nil, time.Millisecond, func() (interface{}, error) {
 		calls++
@@ -101,6 +102,10 @@ func retryTwice() {
 			script[inv][1]++
 			vrt.Log("op-ret", calls, "error")
 			return nil, errPlain
+		}
+		if inv == 0 && fatalEnd {
+			vrt.Log("op-ret", calls, "fatal")
+			return fmt.Sprintf("r%d", calls), FatalError(errPlain)
 		}
 		vrt.Log("op-ret", calls, "success")
 		return fmt.Sprintf("r%d", calls), nil
@@ -251,7 +256,7 @@ func init() {
 	vrt.Register(&vrt.Scenario{Name: "R-retry-long", Props: []string{"C18"}, Quick: 0, Thorough: 1,
 		Desc: "40 plain errors then success: requested random range capped at 2^31", Run: retryLong, Check: retryCheck})
 	vrt.Register(&vrt.Scenario{Name: "R-retry-twice", Props: []string{"C18"}, Quick: 1, Thorough: 2,
-		Desc: "the returned function invoked twice (0-2 plain errors, then success, each time): every invocation's back-off starts at 2^1", Opts: vrt.Options{RandAll: true}, Run: retryTwice, Check: retryTwiceCheck})
+		Desc: "the returned function invoked twice (0-2 plain errors, then success or - first invocation - a fatal error): every invocation's back-off starts at 2^1", Opts: vrt.Options{RandAll: true}, Run: retryTwice, Check: retryTwiceCheck})
 	vrt.Register(&vrt.Scenario{Name: "R-calc", Props: []string{"C18"}, Quick: 1, Thorough: 1,
 		Desc: "calcExponentialRetry for every c in 0..40 x 4 rates x boundary random answers", Opts: vrt.Options{RandAll: true}, Run: retryCalc, Check: retryCalcCheck})
 	vrt.Register(&vrt.Scenario{Name: "A-attempt", Props: []string{"C20", "C11:race", "C12:goroutine-leak"}, Quick: 3, Thorough: 4,
